@@ -419,6 +419,9 @@ func runC03(ctx *common.Ctx) error {
 			{Kind: "MOVE", S: 0, Set: "3,1", Box: "b2"}, {Kind: "COPY", S: 0, Set: "3:2,1", Box: "b2"}, {Kind: "SELECT", S: 0, Box: "b2"},
 			{Kind: "MOVE", S: 0, UID: true, Set: "4,2:3,2", Box: "b3"}, {Kind: "COPY", S: 0, UID: true, Set: "5,1", Box: "b1"}, {Kind: "MOVE", S: 0, Set: "*,1", Box: "b2"},
 			{Kind: "SELECT", S: 0, Box: "b3"}, {Kind: "COPY", S: 0, Set: "2,2:3,1", Box: "b3"}, {Kind: "MOVE", S: 0, UID: true, Set: "6:4", Box: "b1"}}},
+		{"deleted-taken-back-seen-by-the-other-session", 2, []op{sel(0, "b1"), sel(1, "b1"), app(0, "b1", "u1"), app(0, "b1", "u2"), app(0, "b1", "u3"),
+			sto(0, "1:2", "+", `\Deleted`), {Kind: "NOOP", S: 1}, sto(0, "1", "-", `\Deleted`), {Kind: "NOOP", S: 1}, {Kind: "EXPUNGE", S: 1},
+			sto(0, "1,3", "+", `\Deleted`, "k"), {Kind: "NOOP", S: 1}, sto(0, "1", "=", `\Seen`), sto(0, "3", "-", `\DELETED`, "k"), {Kind: "CLOSE", S: 1, Box: "b1"}}},
 		{"stale-targets", 2, []op{sel(0, "b1"), sel(1, "b1"), app(0, "b1", "s1"), app(0, "b1", "s2"), {Kind: "COPY", S: 0, Set: "1", Box: "b2"},
 			sto(0, "1", "+", `\Deleted`), {Kind: "EXPUNGE", S: 0}, sto(1, "1", "+", "late"), {Kind: "MOVE", S: 1, Set: "1", Box: "b2"},
 			{Kind: "COPY", S: 1, Set: "1", Box: "b3"}, {Kind: "EXPUNGE", S: 1}}},
